@@ -96,3 +96,10 @@ SPEC("pane.field", "rename_field.refusal", bounded=True,
      returns_iff=(lambda field, style: False, ["C20"]),
      raises=(lambda field, style, exc: exc_is(exc, ValueError), ["C20"]),
      note="bounded: names with leading / trailing / doubled separators must be refused with ValueError")
+
+
+SPEC("pane.field", "Field.has_default",
+     shapes={"self": "rec:Field"},
+     ensures=[(lambda self, result: truthy(result) == ((self.default is not MISSING) or (self.default_factory is not None)), ["C14", "C15"], "has-default"),
+              (lambda self, result: isinstance(result, bool), ["C14"], "bool")],
+     total=True, no_raise=["C14"])
